@@ -67,9 +67,13 @@ MapsT   == MapsQ \cup { ("a" :> Z) @@ ("b" :> Z) @@ ("c" :> <<1, 1>>), ("a" :> <
 FracMapsT == FracMapsQ \cup { ("b" :> <<1, 3>>), ("a" :> Z), ("a" :> <<1, 3>>) @@ ("b" :> <<1, 3>>) @@ ("c" :> <<1, 3>>) }
 
 ASSUME PrintT(ToJson([tree |-> Tree]))
-Bound == TLCGet("level") <= MaxLevel
-\* successors are generated only below the last level (TLC evaluates invariants also on states outside the constraint)
-G == TLCGet("level") < MaxLevel
+\* The exploration depth is a variable of the bounded model (not TLCGet("level"): with several workers TLC's level of a state
+\* is the depth at which it happened to be found first, which makes a level-bounded search incomplete and non-deterministic).
+\* Successors are generated only below the last depth (TLC evaluates invariants also on states outside a CONSTRAINT).
+VARIABLE depth
+InitB == Init /\ depth = 1
+Bound == depth <= MaxLevel
+G == depth < MaxLevel /\ depth' = depth + 1
 BSetN == G /\ DoSetN
 BUpdateN == G /\ DoUpdateN
 BSetNs == G /\ DoSetNs
@@ -80,7 +84,7 @@ BRemoveMass == G /\ DoRemoveMass
 BSetMass == G /\ DoSetMass
 BSetMassFracs == G /\ DoSetMassFracs
 NextB == BSetN \/ BUpdateN \/ BSetNs \/ BScale \/ BClear \/ BAddMass \/ BRemoveMass \/ BSetMass \/ BSetMassFracs
-View  == vars
-Emit  == PrintT(ToJson([lvl |-> TLCGet("level"), from |-> Vars, act |-> act', to |-> Vars', err |-> err']))
+View  == <<vars, depth>>
+Emit  == PrintT(ToJson([lvl |-> depth, from |-> Vars, act |-> act', to |-> Vars', err |-> err']))
 EmitState == PrintT(ToJson([st |-> Vars, obs |-> Obs]))
 ===========================================================================================================
